@@ -291,6 +291,14 @@ fn host_avx2() -> bool {
 }
 
 static COST_MAX_LOG2: AtomicUsize = AtomicUsize::new(16);
+/// `--also-model`: disagreement of a one-shot result with the naive model
+/// counts as a violation of the running profile too (used by the driver's
+/// isolation oracle for C15: a call must return what it returns in isolation)
+static ALSO_MODEL: std::sync::atomic::AtomicBool = std::sync::atomic::AtomicBool::new(false);
+
+pub fn owns(profile: gen::Profile, k: VKind) -> bool {
+    profile.owns(k) || (k == VKind::Model && ALSO_MODEL.load(Ordering::Relaxed))
+}
 static PORTABLE: std::sync::atomic::AtomicBool = std::sync::atomic::AtomicBool::new(false);
 
 pub fn target() -> gen::Target {
@@ -657,6 +665,8 @@ struct RunReport {
     cost: CostStats,
     violation: Option<serde_json::Value>,
     other_property_notes: Vec<String>,
+    #[serde(default)]
+    model_candidates: Vec<serde_json::Value>,
     samples: Vec<serde_json::Value>,
     wall_s: f64,
     log_hashes: Vec<(u64, u64)>,
@@ -771,8 +781,16 @@ fn cmd_run(args: &[String]) -> i32 {
                 "choices": fo.choices,
             }));
         }
-        let mine: Vec<&(usize, Violation)> = fo.violations.iter().filter(|(_, v)| profile.owns(v.kind)).collect();
-        for (_, v) in fo.violations.iter().filter(|(_, v)| !profile.owns(v.kind)) {
+        let mine: Vec<&(usize, Violation)> = fo.violations.iter().filter(|(_, v)| owns(profile, v.kind)).collect();
+        // candidates for the isolation oracle: results that disagree with the
+        // naive model although no owned invariant tripped
+        if mine.is_empty() && rep.model_candidates.len() < 4 && fo.violations.iter().any(|(_, v)| v.kind == VKind::Model) {
+            let mut f2 = fam.clone();
+            f2.replay = true;
+            f2.choices = fo.choices.clone();
+            rep.model_candidates.push(serde_json::json!({ "index": index, "family": f2 }));
+        }
+        for (_, v) in fo.violations.iter().filter(|(_, v)| !owns(profile, v.kind)) {
             if rep.other_property_notes.len() < 20 {
                 rep.other_property_notes.push(format!(
                     "family {}: {:?} ({}) {}",
@@ -830,7 +848,7 @@ fn cmd_replay(args: &[String]) -> i32 {
     let mut stats = Stats::default();
     PROG_FAMILY.store(fam.base.index, Ordering::Relaxed);
     let fo = run_family(&fam, &mut stats);
-    let mine: Vec<&(usize, Violation)> = fo.violations.iter().filter(|(_, v)| profile.owns(v.kind)).collect();
+    let mine: Vec<&(usize, Violation)> = fo.violations.iter().filter(|(_, v)| owns(profile, v.kind)).collect();
     let all = flag(args, "--all");
     let shown: Vec<&(usize, Violation)> = if all { fo.violations.iter().collect() } else { mine.clone() };
     println!(
@@ -952,6 +970,9 @@ fn main() {
     }
     if flag(&args, "--portable") {
         PORTABLE.store(true, Ordering::Relaxed);
+    }
+    if flag(&args, "--also-model") {
+        ALSO_MODEL.store(true, Ordering::Relaxed);
     }
     exec_std::abi_check();
     exec_alloc::abi_check();
